@@ -1,9 +1,9 @@
 SPECIFICATION Spec
 CONSTANT Which = "C17"
 CONSTANT TinyLen = 0
-CONSTANT TailLen = 0
-CONSTANT SmallLen = 4
-CONSTANT AsBuilt = {"FilterChecksPrefixOnly"}
+CONSTANT TailLen = 4
+CONSTANT SmallLen = 0
+CONSTANT AsBuilt = {"FilterCleansQueryToo"}
 CONSTANT MaxLen = 1
 INVARIANTS StaysOnOrigin
 CHECK_DEADLOCK FALSE
